@@ -71,7 +71,40 @@ def _loop_init(t, mutname_pred):
     return None
 
 
+def _strict(t):
+    """bottom propagation: a value built from an impossible (never) part does not exist"""
+    h = t[0]
+    if h == 'call':
+        parts = t[2]
+    elif h == 'struct':
+        parts = [x for _, x in t[2]]
+    elif h == 'variant':
+        parts = t[3]
+    elif h in ('tuple', 'array', 'concat'):
+        parts = t[1]
+    elif h in ('keccak', 'xdr', 'elem', 'next', 'vecmap', 'sha256'):
+        parts = [t[1]]
+    elif h == 'bin':
+        parts = [t[2], t[3]]
+    elif h == 'un':
+        parts = [t[2]]
+    elif h == 'cast':
+        parts = [t[3]]
+    elif h == 'mut':
+        parts = [t[2]] + list(t[3])
+    else:
+        return t
+    for x in parts:
+        if isinstance(x, tuple) and x and x[0] == 'never':
+            return ('never',)
+    return t
+
+
 def _norm(t):
+    return _strict(_norm0(t))
+
+
+def _norm0(t):
     h = t[0]
     if h in ('param', 'const', 'fn', 'mu', 'undef', 'never', 'opaque', 'deep', 'self', 'sym', 'now', 'seq'):
         if h == 'const':
